@@ -289,6 +289,13 @@ def run(ctx, rep) -> None:
     rep.rule("C03.10", "inverse-root selection per tensor order (override 0 -> default rule 2, n -> n, sequence -> entry of that order); the gradient lists handed to the preconditioner are read-only inputs (the direction is computed on a copy)")
     rep.attempt("inverse_root_selection", inverse_root_selection, ctx, rep, "C03.10")
     rep.attempt("gradients_are_inputs", gradients_are_inputs, ctx, rep, "C03.10")
+    from .c12 import defaults_agree_with_configs
+
+    rep.attempt("defaults_agree_with_configs", defaults_agree_with_configs, ctx, rep, "C03.9")
+    from . import c13
+
+    rep.rule("C03.11", "only finite bases are stored: the NaN/Inf test on the computed eigenvectors dominates the copy into the stored basis and raises outside the try (a rejected result leaves the last valid basis in place)")
+    rep.attempt("finite_store", c13.run, ctx, _Only(rep, "C13.2", "C03.11"))
     # ---- C03.4
     rep.attempt("dtype_rules", dtype_rules, ctx, rep, "C03.4")
     from .arith import factor_arithmetic, qr_iteration_arithmetic, soap_arithmetic
@@ -316,3 +323,33 @@ class _Proxy:
 
     def floor(self, rule, *a, **k):
         return self._rep.floor(self._new if rule == self._old else rule, *a, **k)
+
+
+class _Only:
+    """Runs another property's rule set but keeps only the obligations of one of its rules, re-labelled."""
+
+    def __init__(self, rep, old: str, new: str) -> None:
+        self._rep, self._old, self._new = rep, old, new
+        self.notes = {}
+
+    def __getattr__(self, name):
+        return getattr(self._rep, name)
+
+    def ob(self, rule, *a, **k):
+        if rule == self._old:
+            return self._rep.ob(self._new, *a, **k)
+
+    def floor(self, rule, *a, **k):
+        if rule == self._old:
+            return self._rep.floor(self._new, *a, **k)
+
+    def rule(self, *a, **k):
+        return None
+
+    def assume(self, *a, **k):
+        return None
+
+    def attempt(self, name, fn, *a, **k):
+        a = tuple(self if x is self._rep else x for x in a)
+        return self._rep.attempt(name, fn, *a, **k)
+
